@@ -233,7 +233,9 @@ async fn run_once(base: &Env, op: &str, plan: Plan, variant: u64, swallow: bool)
             let (target, source_gone) = match e.kind {
                 inject::K_PUT | inject::K_CREATE => (env.rel(&e.a), true),
                 inject::K_DELETE => (String::new(), !listing.contains(&env.rel(&e.a))),
-                inject::K_RENAME_INE | inject::K_RENAME => (env.rel(&e.b), !listing.contains(&env.rel(&e.a))),
+                // object_store's rename_if_not_exists on the local fs is link + unlink: a dropped call may have
+                // linked the target and left the source; the target existing is the effect that matters
+                inject::K_RENAME_INE | inject::K_RENAME => (env.rel(&e.b), true),
                 _ => (env.rel(&e.b), true),
             };
             e.effect = (target.is_empty() || listing.contains(&target)) && source_gone;
